@@ -1,13 +1,13 @@
 """C20 - the serial (USB) stream resynchronises after noise with bounded buffering.
 (1) iteration lemma: exactly one iteration of the real receive loop of WaveShareNmea2000Gateway._receive_impl from a
     buffer of N fully symbolic bytes (bytearray.find modelled by forking on the first marker position): it either
-    leaves the loop - with no marker in the buffer and at most the last byte kept (which is kept whenever it could be
-    the first half of a marker), or with the first marker followed by fewer than 20 bytes and the buffer unchanged -
+    leaves the loop - with no marker in the buffer and at most KEEP_MAX (40) trailing bytes kept (a trailing 0xAA, possibly
+    the first half of a marker, is kept), or with the first marker followed by fewer than 20 bytes and the buffer unchanged -
     or it hands exactly buf[start:start+20] to decode_usb, queues the result iff there is one, and continues with
     buf[start+20:].
-(2) bound: with (1) as the transition relation, z3 proves over the integers that 'no marker and len <= 1, or first
-    marker at s <= 100 with fewer than 20 bytes after it' is preserved by read-and-process for reads of <= 100 bytes:
-    at most 119 bytes are held between reads, for streams of any length.
+(2) bound: with (1) as the transition relation, z3 proves over the integers that 'no marker and len <= KEEP_MAX, or first
+    marker at s <= 99 + KEEP_MAX with fewer than 20 bytes after it' is preserved by read-and-process for reads of <= 100
+    bytes: at most 158 bytes are held between reads, for streams of any length.
 (3) checksum: decode_usb on a symbolic 20-byte window reaches the shared decode path only with AA 55 and a matching sum.
 (4) resynchronisation: marker-free symbolic noise, then two valid packets, split into reads at explorer-chosen
     positions, through whole _receive_impl calls: both packets are delivered, in order."""
@@ -26,6 +26,9 @@ MARK = (0xAA, 0x55)
 
 class StopLoop(BaseException):
     pass
+
+
+KEEP_MAX = 40       # trailing noise bytes an implementation may hold back when no marker is in sight (two packets' worth)
 
 
 class SymByteArray(SymBytes):
@@ -59,6 +62,52 @@ class SymByteArray(SymBytes):
             if z3.is_true(c) or EX().branch(c):
                 return i
         return -1
+
+    def _match_at(self, pos, sub):
+        sub = list(sub)
+        if pos < 0 or pos + len(sub) > len(self.items):
+            return False
+        if not sub:
+            return True
+        c = z3.simplify(z3.And(*[truth(SymInt.lift(self.items[pos + k]) == sub[k]) for k in range(len(sub))]))
+        if z3.is_false(c):
+            return False
+        return True if z3.is_true(c) else EX().branch(c)
+
+    def endswith(self, suffix):
+        if isinstance(suffix, tuple):
+            return any(self.endswith(x) for x in suffix)
+        return self._match_at(len(self.items) - len(suffix), suffix)
+
+    def startswith(self, prefix):
+        if isinstance(prefix, tuple):
+            return any(self.startswith(x) for x in prefix)
+        return self._match_at(0, prefix)
+
+    def rfind(self, sub, start=0, end=None):
+        n = len(self.items) if end is None else min(end, len(self.items))
+        for i in range(n - len(list(sub)), start - 1, -1):
+            if self._match_at(i, sub):
+                return i
+        return -1
+
+    def index(self, sub, *a):
+        i = self.find(sub, *a)
+        if i < 0:
+            raise ValueError("subsection not found")
+        return i
+
+    def __contains__(self, x):
+        if isinstance(x, (bytes, bytearray)):
+            return self.find(x) >= 0
+        return self.find([x]) >= 0
+
+    def pop(self, i=-1):
+        return self.items.pop(i)
+
+    def __iadd__(self, data):
+        self.items.extend(list(data))
+        return self
 
     def hex(self, *a):
         return "<symbolic buffer>"
@@ -205,8 +254,10 @@ def _iter_worker(Ns):
                 else:
                     suffix = z3.And(*[truth(SymInt.lift(items[i]) == content[N - M + i]) for i in range(M)]) if M else z3.BoolVal(True)
                     no_marker = z3.And(*none_before(N - 1)) if N >= 2 else z3.BoolVal(True)
-                    if M <= 1:
-                        kept = z3.BoolVal(True) if (M == 1 or N == 0) else z3.Not(truth(content[N - 1] == 0xAA))
+                    if M <= KEEP_MAX:
+                        # how many trailing noise bytes an implementation keeps is its own business as long as it is a small
+                        # constant (KEEP_MAX) and a trailing 0xAA - possibly the first half of a marker - is not thrown away
+                        kept = z3.BoolVal(True) if (M >= 1 or N == 0) else z3.Not(truth(content[N - 1] == 0xAA))
                         claim_a = z3.And(no_marker, kept)
                     else:
                         claim_a = z3.BoolVal(False)
@@ -216,7 +267,7 @@ def _iter_worker(Ns):
                 st, m = prove(cl, pa.pc, label="iteration-exit/N=%d" % N)
                 if st == "sat":
                     rep.violation({"kind": "iteration-exit"},
-                                  "N=%d: the loop is left holding %d bytes in a state that is neither 'no marker, at most the last byte kept (kept if 0xAA)' nor 'a suffix starting at or before the first marker, which has < 20 bytes after it'" % (N, len(items)), wit(m))
+                                  "N=%d: the loop is left holding %d bytes in a state that is neither 'no marker, at most KEEP_MAX trailing bytes kept (a trailing 0xAA is kept)' nor 'a suffix starting at or before the first marker, which has < 20 bytes after it'" % (N, len(items)), wit(m))
                 elif st == "unknown":
                     rep.inconc("iteration exit N=%d undecided" % N)
             else:
@@ -246,15 +297,16 @@ def _iter_worker(Ns):
 def bound_lemma(rep):
     """(2) integer induction over (len, first marker position) using the transition relation proved in (1)"""
     L0, s0, n, L, s = z3.Ints("L0 s0 n L s")
+    K = KEEP_MAX
 
     def Inv(Lx, sx):
-        return z3.Or(z3.And(sx == -1, Lx >= 0, Lx <= 1), z3.And(sx >= 0, sx <= 100, Lx - sx < 20, Lx >= sx + 2))
+        return z3.Or(z3.And(sx == -1, Lx >= 0, Lx <= K), z3.And(sx >= 0, sx <= 99 + K, Lx - sx < 20, Lx >= sx + 2))
     # after the read: the buffer is L = L0+n long; the first marker is where it was, or (none before) somewhere from L0-1 on
     after_read = z3.And(n >= 0, n <= 100, L == L0 + n,
                         z3.If(s0 >= 0, s == s0, z3.Or(s == -1, z3.And(s >= z3.If(L0 >= 1, L0 - 1, 0), s <= L - 2))))
     # loop-head invariant H(L, s, cuts): before any cut: L <= 219 and s <= 100; after a cut: L <= 99
     cut = z3.Bool("cut")
-    H = z3.And(L >= 0, z3.Or(s == -1, z3.And(s >= 0, s <= L - 2)), z3.If(cut, L <= 99, z3.And(L <= 219, z3.Or(s == -1, s <= 100))))
+    H = z3.And(L >= 0, z3.Or(s == -1, z3.And(s >= 0, s <= L - 2)), z3.If(cut, L <= 99, z3.And(L <= 218 + K, z3.Or(s == -1, s <= 99 + K))))
     obligations = []
     # entry
     obligations.append(("entry", z3.Implies(z3.And(Inv(L0, s0), after_read, z3.Not(cut)), H)))
@@ -266,7 +318,7 @@ def bound_lemma(rep):
     obligations.append(("step", z3.Implies(z3.And(step_pre, first_cut_small), H2)))
     # exit: no marker -> at most one byte kept; marker with < 20 bytes -> unchanged
     Lx = z3.Int("Lx")
-    exit_nomarker = z3.And(H, s == -1, Lx >= 0, Lx <= 1)
+    exit_nomarker = z3.And(H, s == -1, Lx >= 0, Lx <= K)
     obligations.append(("exit-no-marker", z3.Implies(exit_nomarker, Inv(Lx, z3.IntVal(-1)))))
     exit_wait = z3.And(H, s >= 0, L - s < 20, z3.Implies(z3.Not(cut), z3.And(Inv(L0, s0), after_read)))
     obligations.append(("exit-waiting", z3.Implies(exit_wait, Inv(L, s))))
@@ -455,7 +507,7 @@ def replay(r):
             b = b[s + 20:]
         left = bytes(c._buffer)
         sm = b.find(b"\xaa\x55")
-        ok_left = (sm == -1 and len(left) <= 1 and (left == b[-1:] or (not b.endswith(b"\xaa") and left == b""))) or \
+        ok_left = (sm == -1 and len(left) <= KEEP_MAX and b.endswith(left) and (len(left) >= 1 or not b.endswith(b"\xaa"))) or \
                   (sm != -1 and b.endswith(left) and len(left) >= len(b) - sm)
         bad = len(res) != len(exp) or not ok_left
         return bad, "buffer %s: %d packets delivered (expected %d), %d bytes held: %s" % (buf.hex(), len(res), len(exp), len(left), left.hex())
